@@ -49,7 +49,10 @@ def build_router(cfg):
     for i, mc in enumerate(cfg["methods"], 1):
         ns = {"pt": pt, "marker": bytes([i])}
         exec("def m%d():\n    return pt.Log(pt.Bytes(marker))\n" % i, ns)
-        router.add_method_handler(pt.ABIReturnSubroutine(ns["m%d" % i]), method_config=pt.MethodConfig(**{oc: cc(c) for oc, c in mc.items()}))
+        if cfg.get("style") == "decorator":       # the decorator takes the call configurations as keywords (omitted = NEVER once one is given)
+            router.method(ns["m%d" % i], **{oc: cc(c) for oc, c in mc.items() if c != "NEVER"})
+        else:
+            router.add_method_handler(pt.ABIReturnSubroutine(ns["m%d" % i]), method_config=pt.MethodConfig(**{oc: cc(c) for oc, c in mc.items()}))
         sels.append(list(tealtok.selector("m%d()void" % i)))
     return router, sels
 
@@ -98,6 +101,13 @@ def main():
         cfgs.append({"methods": [], "bare": b, "clear": rnd.randrange(2)})
     for _ in range(40 if tier == "quick" else 300):           # one method + bare actions
         cfgs.append({"methods": [rnd.choice(live)], "bare": rnd.choice(live), "clear": 1})
+    # both registration interfaces: every second router with methods uses the decorator (all of them twice in thorough)
+    withm = [c for c in cfgs if c["methods"]]
+    if tier == "thorough":
+        cfgs += [dict(c, style="decorator") for c in withm]
+    else:
+        for c in withm[::2]:
+            c["style"] = "decorator"
     # construction-time rules: a method that can never be called is refused
     try:
         build_router({"methods": [dict(NEVER)], "bare": dict(NEVER), "clear": 0})
